@@ -281,6 +281,7 @@ type paNames struct {
 	ctRaw, ctPre, ctSuf          string
 	rndPre, rndSuf               string
 	scheme                       string
+	filePrefix                   string
 }
 
 func paTempNames(c *ctx) paNames {
@@ -359,6 +360,35 @@ func paTempNames(c *ctx) paNames {
 		if n.scheme[i] < 'a' || n.scheme[i] > 'z' {
 			fail("%s: CreatePreferredCrlLoader: scheme prefix %q is not lower-case ASCII", c.pos(cf), n.scheme)
 		}
+	}
+	// identifiers: URL = hash of the normalised string, file = hash of <literal> + name (the literal may be absent)
+	ul := c.funcDecl("crl/crlloader/urlcrlloader.go", "URLLoader", "GetCRLLocationIdentifier")
+	uc := paCalls(ul.Body, "calculateHashHexString")
+	if len(uc) != 1 || exprStr(uc[0]) != "calculateHashHexString(normalizedUrl)" {
+		fail("%s: URLLoader.GetCRLLocationIdentifier: expected calculateHashHexString(normalizedUrl)", c.pos(ul))
+	}
+	fl := c.funcDecl("crl/crlloader/filecrlloader.go", "FileLoader", "GetCRLLocationIdentifier")
+	fc := paCalls(fl.Body, "calculateHashHexString")
+	if len(fc) != 1 || len(fc[0].Args) != 1 {
+		fail("%s: FileLoader.GetCRLLocationIdentifier: expected one calculateHashHexString(…)", c.pos(fl))
+	}
+	switch a := fc[0].Args[0].(type) {
+	case *ast.SelectorExpr:
+		if exprStr(a) != "f.FileName" {
+			fail("%s: FileLoader.GetCRLLocationIdentifier hashes %s", c.pos(fl), exprStr(a))
+		}
+	case *ast.BinaryExpr:
+		if a.Op != token.ADD || exprStr(a.Y) != "f.FileName" {
+			fail("%s: FileLoader.GetCRLLocationIdentifier hashes %s", c.pos(fl), exprStr(a))
+		}
+		n.filePrefix = paGoString(c, a.X)
+	default:
+		fail("%s: FileLoader.GetCRLLocationIdentifier hashes %s", c.pos(fl), exprStr(fc[0].Args[0]))
+	}
+	ml := c.funcDecl("crl/crlloader/multischemescrlloader.go", "MultiSchemesCRLLoader", "GetCRLLocationIdentifier")
+	mc := paCalls(ml.Body, "calculateHashHexString")
+	if len(mc) != 1 || exprStr(mc[0]) != "calculateHashHexString(builder.String())" || len(paCalls(ml.Body, "builder.WriteString")) != 1 {
+		fail("%s: MultiSchemesCRLLoader.GetCRLLocationIdentifier: expected the hash of the concatenated loader identifiers", c.pos(ml))
 	}
 	return n
 }
@@ -833,6 +863,7 @@ func genPaths(c *ctx, out string) {
 	l.p("    randomPrefix := %s", paBytes(n.rndPre))
 	l.p("    randomSuffix := %s", paBytes(n.rndSuf))
 	l.p("    cdpSchemePrefix := %s  -- %q", paBytes(n.scheme), n.scheme)
+	l.p("    fileIdPrefix := %s  -- %q", paBytes(n.filePrefix), n.filePrefix)
 	l.p("    updateOps := %s", paList(upd, "      "))
 	l.p("    metaWriteHits := %s", q(metaHits))
 	l.p("    entryWriteHits := %s", q(entryHits))
@@ -844,7 +875,7 @@ func genPaths(c *ctx, out string) {
 
 	c.facts["paths"] = map[string]interface{}{
 		"tempPattern": n.sweepRaw, "tempPrefix": n.sweepPre, "tempSuffix": n.sweepSuf,
-		"createTempPattern": n.ctRaw, "randomPrefix": n.rndPre, "randomSuffix": n.rndSuf, "cdpSchemePrefix": n.scheme,
+		"createTempPattern": n.ctRaw, "randomPrefix": n.rndPre, "randomSuffix": n.rndSuf, "cdpSchemePrefix": n.scheme, "fileIdPrefix": n.filePrefix,
 		"updateOps": upd, "loadProgram": load, "refreshProgram": refresh, "provisionOps": prov, "cleanupOps": clean,
 		"metaWriteHits": metaHits, "entryWriteHits": entryHits,
 	}
